@@ -48,16 +48,16 @@ def history_check(prop, tier, seed, shapes, monitors, modules, profiles, p_inval
 
 
 def check_C01(tier, seed):
-    return history_check("C01", tier, seed, gen.ALL_SHAPES, [mon_c01], ["Soa.Props.C01", "Soa.Lemmas.SkelTie"], ["debug", "release"])
+    return history_check("C01", tier, seed, gen.ALL_SHAPES, [mon_c01], ["Soa.Props.C01", "Soa.Lemmas.SkelTie", "Soa.Lemmas.SkelRead.C01"], ["debug", "release"])
 
 def check_C02(tier, seed):
-    return history_check("C02", tier, seed, gen.ALL_SHAPES, [mon_c02], ["Soa.Props.C02", "Soa.Props.World", "Soa.Lemmas.SkelTie"], ["debug", "release"], p_invalid=0.4)
+    return history_check("C02", tier, seed, gen.ALL_SHAPES, [mon_c02], ["Soa.Props.C02", "Soa.Props.World", "Soa.Lemmas.SkelTie", "Soa.Lemmas.SkelRead.C01"], ["debug", "release"], p_invalid=0.4)
 
 def check_C03(tier, seed):
-    return history_check("C03", tier, seed, gen.ALL_SHAPES, [mon_c03], ["Soa.Props.C03", "Soa.Lemmas.SkelTie"], ["debug", "release"], p_invalid=0.3)
+    return history_check("C03", tier, seed, gen.ALL_SHAPES, [mon_c03], ["Soa.Props.C03", "Soa.Lemmas.SkelTie", "Soa.Lemmas.SkelRead.C01"], ["debug", "release"], p_invalid=0.3)
 
 def check_C08(tier, seed):
-    return history_check("C08", tier, seed, gen.DROP_SHAPES, [mon_c08], ["Soa.Props.C08", "Soa.Lemmas.SkelTie"], ["debug", "release"])
+    return history_check("C08", tier, seed, gen.DROP_SHAPES, [mon_c08], ["Soa.Props.C08", "Soa.Lemmas.SkelTie", "Soa.Lemmas.SkelRead.C01"], ["debug", "release"])
 
 
 def check_C04(tier, seed):
@@ -97,7 +97,7 @@ def check_C12(tier, seed):
     t0 = time.time()
     z = sizes(tier)
     for p in ("debug", "release"): build_harness(p)
-    proof = prove("C12", ["Soa.Props.C12"])
+    proof = prove("C12", ["Soa.Props.C12", "Soa.Lemmas.SkelCapTie", "Soa.Lemmas.SkelRead.C12"])
     scs = gen.cap_scenarios(gen.CAP_SHAPES, z["nrand"], z["nops"], seed)
     suites = [run_suite("C12", scs, ["debug", "release"], [mon_c12], "capacity", compare_model=MODEL_C12),
               # the capacity API and the growing operations dispatched through the SoAVec trait
@@ -140,7 +140,7 @@ MODEL = {"C05": True, "C06": True, "C07": True, "C10": True, "C15": True}
 
 def check_C05(tier, seed):
     L, depth, per = (4, 3, 60) if tier == "quick" else (6, 3, 500)
-    return simple_check("C05", tier, seed, lambda t: gen.view_scenarios(gen.ALL_SHAPES, L, depth, seed, per), mon_c05, ["Soa.Props.C05"],
+    return simple_check("C05", tier, seed, lambda t: gen.view_scenarios(gen.ALL_SHAPES, L, depth, seed, per), mon_c05, ["Soa.Props.C05", "Soa.Lemmas.SkelViewTie", "Soa.Lemmas.SkelRead.C05"],
                         model=MODEL["C05"], widen_fn=lambda: gen.view_scenarios(gen.ALL_SHAPES, 6, 3, seed + 1, 300))
 
 def check_C06(tier, seed):
@@ -155,7 +155,7 @@ def check_C07(tier, seed):
 
 def check_C10(tier, seed):
     L = 4 if tier == "quick" else 6
-    return simple_check("C10", tier, seed, lambda t: gen.ptr_scenarios(gen.ALL_SHAPES, L), mon_c10, ["Soa.Props.C10"],
+    return simple_check("C10", tier, seed, lambda t: gen.ptr_scenarios(gen.ALL_SHAPES, L), mon_c10, ["Soa.Props.C10", "Soa.Lemmas.SkelPtrTie", "Soa.Lemmas.SkelRead.C10"],
                         model=MODEL["C10"], widen_fn=lambda: gen.ptr_scenarios(gen.ALL_SHAPES, 6))
 
 def check_C15(tier, seed):
